@@ -299,7 +299,7 @@ Unset Printing Records.
 """
 
 
-def run_coq_cases(tag, mods, items, timeout=1200):
+def run_coq_cases(tag, mods, items, timeout=1200, preamble=""):
     """items: list of (key, gallina_expr); evaluates each with vm_compute; returns {key: printed value}"""
     d = os.path.join(BUILD, "cases", tag)
     os.makedirs(d, exist_ok=True)
@@ -308,7 +308,7 @@ def run_coq_cases(tag, mods, items, timeout=1200):
     def one(i):
         fn = os.path.join(d, f"cases_{i}.v")
         with open(fn, "w") as f:
-            f.write(COQ_HDR.format(mods=" ".join(mods)))
+            f.write(COQ_HDR.format(mods=" ".join(mods)) + preamble)
             for key, expr in shards[i]:
                 f.write(f'Goal True. idtac "@@{key}". Abort.\nEval vm_compute in ({expr}).\n')
         rc, out = sh(["coqc", "-noglob", "-Q", COQ, "HL", fn], cwd=d, timeout=timeout)
